@@ -596,22 +596,22 @@ theorem argsOK_first {G : GCtx} (ok : G.OK) {pi : PInfo} (hpi : pi ∈ G.procs) 
     | exit c s => exact absurd hpe (evalArgs_pure_no_exit G.xc post f0 s1 c s (fun e he => constL_pure G.rho e (hpost e he)))
     | ok vs s =>
       simp only [Res.bind]
-      obtain ⟨hss, hlv, hokv, hspec⟩ := constLs_specs (KOf G pi sp dep hi) wf.toWF post f0 s1 s vs hpost rep2.valsOk hpe
+      obtain ⟨hss, hlv, hspec⟩ := constLs_specs (KOf G pi sp dep hi) wf.toWF post f0 s1 s vs hpost rep2.valsOk hpe
       have hload : LoadSpec (KOf G pi sp dep hi) s1 (optArgsOf G.rho (.call g args' :: post))
-          ((Val.int w :: vs).map (wordOf G.abase)) := by
+          ((Val.int w :: vs).map (KOf G pi sp dep hi).VRep) := by
         rw [hargs]
         simp only [List.map_cons, LoadSpec]
         exact ⟨fun h => by rw [hcc] at h; simp at h, hspec s1⟩
       have hsv : SavedOk (KOf G pi sp dep hi) (mem1.write ((KOf G pi sp dep hi).slot g1.offset) w)
-          (optArgsOf G.rho (.call g args' :: post)) ((Val.int w :: vs).map (wordOf G.abase)) gs.offset := by
+          (optArgsOf G.rho (.call g args' :: post)) ((Val.int w :: vs).map (KOf G pi sp dep hi).VRep) gs.offset := by
         rw [hargs]
         simp only [List.map_cons]
         unfold SavedOk
         rw [if_pos hcc]
         refine ⟨?_, savedOk_noCall _ _ _ _ _ hpostnc⟩
         rw [← e1o]
-        exact Mem.read_write_same _ _ _ hsl1
-      have hlenW : (optArgsOf G.rho (.call g args' :: post)).length = ((Val.int w :: vs).map (wordOf G.abase)).length := by
+        exact (Mem.read_write_same _ _ _ hsl1 : _ = w)
+      have hlenW : (optArgsOf G.rho (.call g args' :: post)).length = ((Val.int w :: vs).map (KOf G pi sp dep hi).VRep).length := by
         simp [optArgsOf, hlv]
       obtain ⟨a3, b3, mem3, st3, rep3, hvals, _, _⟩ := exec_loadItems (KOf G pi sp dep hi) wf.toWF s1 _ _ hlenW hload
         pj.po gs.offset _ c2 gs2 (i + (lowerCode G.cg cc).length + 1 + 1) w (mem1.read 1)
@@ -624,16 +624,12 @@ theorem argsOK_first {G : GCtx} (ok : G.OK) {pi : PInfo} (hpi : pi ∈ G.procs) 
       have rep3s : Rep (KOf G pi sp dep hi) s mem3 := rep3.same hss
       have hio : s.io = s1.io := hss.2.2.2.1
       have hct := exec_calltail ok (f0 + 1) (hcs' (f0 + 1) (Nat.le_refl _)) hpi hpj sp dep hi hlo hspv hstack s (Val.int w :: vs)
-        (fun x hx => by
-          rcases List.mem_cons.mp hx with rfl | hx
-          · rfl
-          · exact hokv x hx)
         gs2.labelCount gs.offset
         (i + (lowerCode G.cg cc).length + 1 + 1 + (lowerCode G.cg c2).length) a3 b3 mem3
         (by have := hat.right.right.right; simpa [Nat.add_assoc] using this) rep3s
         (fun k hk => by
           have := hvals k (by simpa using hk)
-          rw [getElem_map_wordOf] at this
+          simp only [List.getElem_map] at this
           exact this)
         (by simp only [List.length_cons]; omega) (by omega) (by omega)
       have hpre : Steps G.env (cfg i a b mem) st.io
@@ -700,7 +696,7 @@ theorem callE5_inv (pk : Bool) (ps imp : List String) (ρ : String → Option Wo
   exact ⟨g, args, rfl, h.1, h.2⟩
 
 theorem callSpec_zero (G : GCtx) : CallSpec G 0 := by
-  intro pi _ ws st lnk b mem spc k kind n _ _ _ _ _ _ _ _ _
+  intro pi _ ws st lnk b mem spc k kind n _ _ _ _ _ _ _ _
   rw [callUser_zero]; trivial
 
 /-- **Stage (4).**  For every fuel: the statement triples of every procedure in every activation
